@@ -69,6 +69,30 @@ type c23World struct {
 	rejected int            // forwarded attempts refused as unauthorized
 	rejCreds string
 	tx       []bool
+
+	lastAttempt time.Time // end of the most recent apply attempt
+	ctxErrs     int       // attempts that arrived with an already expired / cancelled context
+}
+
+// ctxDead mirrors what the real Store.Execute and cluster.Client.Execute do
+// first: an expired or cancelled context fails the call.
+func (w *c23World) ctxDead(ctx context.Context) error {
+	if err := ctx.Err(); err != nil {
+		w.ctxErrs++
+		w.lastAttempt = time.Now()
+		return err
+	}
+	return nil
+}
+
+// healthy reports whether no injected failure is outstanding any more.
+func (w *c23World) healthy() bool {
+	for k := range w.failAt {
+		if k > w.attempts {
+			return false
+		}
+	}
+	return true
 }
 
 func (w *c23World) tags(er *command.ExecuteRequest) []string {
@@ -82,6 +106,7 @@ func (w *c23World) tags(er *command.ExecuteRequest) []string {
 // attempt decides the fate of one apply attempt. Returns the failure kind or "".
 func (w *c23World) attempt() string {
 	w.attempts++
+	w.lastAttempt = time.Now()
 	return w.failAt[w.attempts]
 }
 
@@ -107,6 +132,9 @@ func (w *c23World) release() {
 func (w *c23World) Execute(ctx context.Context, er *command.ExecuteRequest) ([]*command.ExecuteQueryResponse, uint64, error) {
 	w.mu.Lock()
 	defer w.mu.Unlock()
+	if err := w.ctxDead(ctx); err != nil {
+		return nil, 0, err
+	}
 	if w.follower {
 		return nil, 0, store.ErrNotLeader
 	}
@@ -168,6 +196,9 @@ func (l c23Leader) Execute(ctx context.Context, er *command.ExecuteRequest, node
 	w := l.w
 	w.mu.Lock()
 	defer w.mu.Unlock()
+	if err := w.ctxDead(ctx); err != nil {
+		return nil, 0, err
+	}
 	if w.auth {
 		// the leader applies the credential rule of c23CredFile to the forwarded command
 		if !(creds.GetUsername() == "w" && creds.GetPassword() == "wpw") {
@@ -226,14 +257,14 @@ func c23GenPlan(rt *rapid.T) c23Plan {
 		Follower:  rapid.Bool().Draw(rt, "follower"),
 		Auth:      rapid.Bool().Draw(rt, "auth"),
 		Tx:        rapid.Bool().Draw(rt, "queue-tx"),
-		Batch:     rapid.IntRange(1, 6).Draw(rt, "batch-size"),
+		Batch:     rapid.SampledFrom([]int{1, 2, 3, 4, 5, 6, 6, 16, 128}).Draw(rt, "batch-size"),
 		Cap:       rapid.SampledFrom([]int{1, 2, 8, 64}).Draw(rt, "capacity"),
 		TimeoutMs: rapid.SampledFrom([]int{1, 3, 10, 40}).Draw(rt, "batch-timeout-ms"),
 		FailAt:    map[int]string{},
 	}
 	nc := rapid.IntRange(2, 4).Draw(rt, "clients")
 	for c := 0; c < nc; c++ {
-		nr := rapid.IntRange(1, 5).Draw(rt, "requests")
+		nr := rapid.IntRange(1, 7).Draw(rt, "requests")
 		var rs []c23Req
 		for r := 0; r < nr; r++ {
 			q := c23Req{Stmts: rapid.IntRange(0, 3).Draw(rt, "stmts"), PauseMs: rapid.SampledFrom([]int{0, 0, 1, 5, 15}).Draw(rt, "pause-ms")}
@@ -517,7 +548,11 @@ func TestVerif_C23_Queue(t *testing.T) {
 		for _, is := range append(append([]*c23Issued{}, known...), unknown...) {
 			expected += len(is.Tags)
 		}
-		deadline := time.Now().Add(30*time.Second + time.Duration(len(p.FailAt))*2*time.Second)
+		// The documented bounds: an entry waits at most the queue timeout (<= 40 ms
+		// here) for its batch to be sent, a failed batch is retried after 1 s. With
+		// at most two injected failures everything accepted is applied within ~2.1 s
+		// of the last request; we wait more than five times that.
+		deadline := time.Now().Add(12*time.Second + time.Duration(len(p.FailAt))*2*time.Second)
 		drained := func() bool {
 			w.mu.Lock()
 			n := len(w.applied)
@@ -534,7 +569,17 @@ func TestVerif_C23_Queue(t *testing.T) {
 				return
 			}
 			if time.Now().After(deadline) {
-				rec.Label("inconclusive:not-drained-in-time")
+				w.mu.Lock()
+				healthy, idle, ctxErrs, n := w.healthy(), time.Since(w.lastAttempt), w.ctxErrs, len(w.applied)
+				w.mu.Unlock()
+				switch {
+				case healthy && ctxErrs >= 3:
+					fail("C23/queue-retries-with-dead-context", "the leader is reachable again, yet %d apply attempts arrived with an expired context and %d of %d accepted statements are still not applied", ctxErrs, expected-n, expected)
+				case healthy && idle > 5*time.Second:
+					fail("C23/accepted-statements-stuck-in-idle-queue", "%d of %d accepted statements are not applied although the leader is reachable, no failure is outstanding and the queue consumer has made no apply attempt for %v (queue timeout %d ms): they sit in the queue for ever", expected-n, expected, idle.Round(time.Second), p.TimeoutMs)
+				default:
+					rec.Label("inconclusive:not-drained-in-time")
+				}
 				return
 			}
 			time.Sleep(5 * time.Millisecond)
@@ -751,4 +796,98 @@ func c23Retry(f func() error) error {
 		time.Sleep(time.Duration(50*(try+1)) * time.Millisecond)
 	}
 	return last
+}
+
+// TestVerif_C23_LongOutage: "none are dropped while the node keeps running and
+// a leader is reachable" must also hold after a LONG leader outage. The apply
+// attempts of one batch fail for 31-34 consecutive attempts (runQueue retries
+// once per second, so the outage outlasts the service's 30 s default timeout),
+// then the leader is healthy again. The batch, and what was queued behind it,
+// must then be applied. The fakes honour the context they are given exactly as
+// Store.Execute and cluster.Client.Execute do (an expired context fails the
+// call), so per-batch state that does not survive a long outage is observable.
+func TestVerif_C23_LongOutage(t *testing.T) {
+	rec := vstat.New(t, "C23", "long-outage",
+		"rapid (1 case in quick: each costs ~35 s): role {leader, follower} x outage of 31-34 failed apply attempts {not leader, leadership lost, leader unknown} x 2-3 queued requests, one of them posted in the middle of the outage; oracle: after the outage every accepted statement is applied in acceptance order, and no apply attempt arrives with an expired context; non-trivial = always; distinct by plan")
+	rapid.Check(t, func(rt *rapid.T) {
+		follower := rapid.Bool().Draw(rt, "follower")
+		n := rapid.IntRange(31, 34).Draw(rt, "failed-attempts")
+		kind := rapid.SampledFrom([]string{"not-leader", "leadership-lost", "no-leader"}).Draw(rt, "failure")
+		nreq := rapid.IntRange(2, 3).Draw(rt, "requests")
+		canon := fmt.Sprintf("follower=%v outage=%d x %s requests=%d", follower, n, kind, nreq)
+		rec.Case(true, canon)
+		rec.Sample(canon)
+		w := &c23World{follower: follower, failAt: map[int]string{}}
+		for i := 1; i <= n; i++ {
+			w.failAt[i] = kind
+		}
+		ld := c23Leader{w}
+		svc := New("127.0.0.1:0", w, ld, proxy.New(w, ld), nil)
+		svc.logger.SetOutput(io.Discard)
+		svc.DefaultQueueBatchSz, svc.DefaultQueueCap = 4, 64
+		svc.DefaultQueueTimeout = 5 * time.Millisecond
+		if err := c23Retry(svc.Start); err != nil {
+			rec.Label("inconclusive:infrastructure")
+			return
+		}
+		defer func() { w.release(); svc.Close() }()
+		base := "http://" + svc.Addr().String()
+		hc := &nethttp.Client{Transport: &nethttp.Transport{DisableKeepAlives: true, DialContext: func(ctx context.Context, network, addr string) (net.Conn, error) { return c23Dial(addr) }}, Timeout: 60 * time.Second}
+		var want []string
+		post := func(i int) bool {
+			tag := fmt.Sprintf("INSERT INTO t VALUES('long-%d')", i)
+			body, _ := json.Marshal([]string{tag})
+			resp, err := hc.Post(base+"/db/execute?queue", "application/json", bytes.NewReader(body))
+			if err != nil {
+				return false
+			}
+			io.Copy(io.Discard, resp.Body)
+			resp.Body.Close()
+			if resp.StatusCode != 200 {
+				return false
+			}
+			want = append(want, tag)
+			return true
+		}
+		if !post(0) {
+			rec.Label("inconclusive:infrastructure")
+			return
+		}
+		time.Sleep(200 * time.Millisecond) // let the first batch be taken off the queue on its own
+		for i := 1; i < nreq-1; i++ {
+			post(i)
+		}
+		time.Sleep(10 * time.Second)
+		post(nreq - 1) // in the middle of the outage
+		deadline := time.Now().Add(time.Duration(n)*time.Second + 25*time.Second)
+		for {
+			w.mu.Lock()
+			applied, attempts, ctxErrs := append([]string(nil), w.applied...), w.attempts, w.ctxErrs
+			w.mu.Unlock()
+			desc := fmt.Sprintf("%s :: attempts=%d expired-context attempts=%d applied=%v want=%v", canon, attempts, ctxErrs, applied, want)
+			if ctxErrs >= 3 {
+				sig := "C23/queue-retries-with-dead-context"
+				what := "after a leader outage longer than the default timeout the queued batch is retried with an expired context for ever: it and everything behind it are never applied"
+				if rec.KnownHit(sig, what) {
+					return
+				}
+				rt.Fatalf("%s", rec.Violation(sig, "%s :: %s", what, desc))
+			}
+			if len(applied) >= len(want) {
+				if strings.Join(applied, "|") != strings.Join(want, "|") {
+					rt.Fatalf("%s", rec.Violation("C23/applied-order-differs-from-acceptance-order", "after a long outage :: %s", desc))
+				}
+				rec.Label("applied-after-outage")
+				return
+			}
+			if time.Now().After(deadline) {
+				if attempts > n {
+					rt.Fatalf("%s", rec.Violation("C23/accepted-statements-stuck-in-idle-queue", "leader healthy again for >= 20 s but accepted statements are not applied :: %s", desc))
+				}
+				rec.Label("inconclusive:outage-not-over-in-time")
+				return
+			}
+			time.Sleep(50 * time.Millisecond)
+		}
+	})
 }
